@@ -26,7 +26,8 @@ LStep(st, e, t) ==
                        ELSE Good([st EXCEPT !.sl = r.slave, !.xs = Append(st.xs, e)])
            ELSE Good([st EXCEPT !.xs = Append(st.xs, e)])
       [] e.e = "scan_ret" ->
-           IF t.present
+           \* (a device that has a node id does not take part in the fast scan: for the scan it is not there)
+           IF t.present /\ st.sl.nid = 255
              THEN IF ~e.ok THEN Bad(st, "fast scan failed although one unconfigured slave is present")
                   ELSE IF e.ident # st.id THEN Bad(st, "fast scan returned a wrong identity")
                   ELSE IF st.sl.mode # "config" THEN Bad(st, "fast scan did not leave the slave in configuration state")
